@@ -189,6 +189,34 @@ def check_required_parts(run, fx, rs):
     for variant in ("YearMonth", "MonthDay", "DateTime", "Time"):
         args = [H.Sym("param", ("source",)), H.V(P + "ParseVariant::" + variant, ())]
         need = variant != "Time"
+        # by value first: the external parser replaced by a stub that hands back a record with / without a date
+        verdicts = {}
+        for present in (True, False):
+            def parser_stub(a_, present=present):
+                return H.V(H.OK, (H.S("ixdtf::parsers::records::IxdtfParseRecord",
+                                      (("date", H.V(H.SOME, (H.Sym("date", ()),)) if present else H.V(H.NONE, ())),
+                                       ("calendar", H.V(H.NONE, ())))),))
+            ev = H.Evaluator(fx)
+            ev.inline = lambda p: p.startswith("temporal_rs::")
+            ev.stubs["_with_annotation_handler"] = parser_stub
+            ev.lossy = []
+            try:
+                r = ev.call_fn(h, ["SRC", H.V(P + "ParseVariant::" + variant, ())])
+            except (H.Panic, H.Budget):
+                r = None
+            # the parser object itself is opaque (built by ixdtf, lent to the handler cast): that loss does not touch the record
+            hard = [x for x in ev.lossy if "&mut" not in x]
+            if r is not None and not hard and is_err(r):
+                verdicts[present] = "err-" + str(err_kind(r))
+            elif r is not None and not hard and is_ok(r):
+                verdicts[present] = "ok"
+        if len(verdicts) == 2:
+            want = {True: "ok", False: "err-Range" if need else "ok"}
+            run.check(verdicts == want, rule, "parse_ixdtf/" + variant,
+                      "%s: by value, record with a date -> ok, without -> %s" % (variant, want[False]),
+                      "parse_ixdtf(%s) on a parsed record with / without a date gives %s / %s; expected %s / %s" %
+                      (variant, verdicts[True], verdicts[False], want[True], want[False]), h.loc)
+            continue
         ok = True
         tot = 0
         for dec, res, tr in paths_of(fx, h, args):
